@@ -5,6 +5,7 @@ from ..core.loader import AnalysisError, own_nodes, norm, enclosing_stmt
 from ..core import astq, regions as R
 from ..core.cfg import guards_of, ENTRY, EXIT
 from . import common as K
+from . import flowalg
 from . import c01
 
 EXPLANATION = (
@@ -25,6 +26,7 @@ def run(ctx):
     ctx.each(r04c, ctx, repo)
     ctx.each(r04d, ctx, repo)
     ctx.each(r04e, ctx, repo)
+    ctx.each(flowalg.share_rule, ctx, repo, "R04f")
     ctx.rule("R01e", "junction balance passes on all inflow; residual = inflow - sum(other outflows) per row (shared with C01)")
     ctx.each(c01.r01e, ctx, repo, K.types(repo))
 
